@@ -45,7 +45,12 @@ CF == INSTANCE MachineCF WITH cfprog <- env.prog, cfpc <- pc,
 CFRefinement == [][CF!CFNext]_<<env.prog, pc, [k \in 1..Len(frames) |-> frames[k].ret], status.k>>
 
 \* design-level invariants checked in every state of every behaviour
+\* the generators only produce encodable instructions (16-bit offsets, nibble registers)
+ProgTypeOK == \A k \in 1..Len(Prog) : LET i == Prog[k].i IN
+                 /\ i.off >= -32768 /\ i.off <= 32767 /\ i.dst \in 0..15 /\ i.src \in 0..15 /\ i.opc \in 0..255
+                 /\ Prog[k].n >= 1
 TypeOK == /\ pc \in Nat
+          /\ (steps = 0 => ProgTypeOK)
           /\ \A r \in 0..10 : reg[r] \in Word /\ rt[r] \in {"c", "s", "m", "u"}
           /\ status.k \in {"run", "ok", "err", "stuck"}
 SafeIfWellFormed == NoStuck \/ ~WellFormed(Prog)
